@@ -12,7 +12,7 @@ BOUNDS = [2 ** 8 - 1, 2 ** 8, 2 ** 8 + 1, 2 ** 16 - 1, 2 ** 16, 2 ** 16 + 1, 2 *
 
 class C15:
     id = "C15"
-    rule = ("enumerated per version 3.6-3.13: every opcode number 0..255 x operands {0..300} (quick) / {0..65535} "
+    rule = ("enumerated per version 3.6-3.13: every opcode number 0..255 x operands {0..1024} (quick) / {0..65535} "
             "(thorough) plus the EXTENDED_ARG boundaries 2^8, 2^16, 2^24 (+-1) and 2^30-1, plus Hypothesis draws below "
             "2^30 (dis.stack_effect computes in C ints; larger operands overflow in the reference); oracle: xstack_effect(op, opc, arg) == make_std_api(v).stack_effect(op, arg) == that CPython's "
             "dis.stack_effect(op, arg) (jump unspecified); pairs CPython rejects with ValueError are skipped; "
@@ -42,8 +42,8 @@ class C15:
             lambda p: {"t": "pair", "v": p[0], "op": p[1], "arg": p[2]})
 
     def fixed_cases(self, ctx):
-        hi = 301 if ctx.tier == "quick" else 65536
-        step = 301 if ctx.tier == "quick" else 8192
+        hi = 1025 if ctx.tier == "quick" else 65536
+        step = 1025 if ctx.tier == "quick" else 8192
         for v in VERSIONS:
             for op in range(256):
                 for lo in range(0, hi, step):
